@@ -429,3 +429,137 @@ def _(u):
 @unit("policy.forward.evaluate", file=BASEP, func="ConstructivePolicy.forward", props=("C11",))
 def _(u):
     _policy_unit(u, "evaluate")
+
+
+NNOPS = "rl4co/models/nn/ops.py"
+
+
+@unit("nn.normalization.glue", file=NNOPS, func="Normalization.forward", props=("C14",))
+def _(u):
+    # 'batch' (in eval mode) and 'instance' call torch modules (assumed contract: eval-mode BatchNorm1d is a per-feature affine
+    # map of each row of its [rows, E] input; InstanceNorm1d maps each (instance, feature) series over the nodes on its own);
+    # what is proved is the view / permute glue around the module: every element goes through the module on its own
+    # instance and comes back in place. (The hand-written 'layer' variant is left to the stand-in.)
+    N = u.dim("N", 2)
+    E = u.dim("E", 1)
+    B = u.dim("B")
+    g, h = u.tensor("bn.scale", (E,), "f"), u.tensor("bn.shift", (E,), "f")
+
+    class _BN:
+        _isinstance_of = ("BatchNorm1d",)
+
+        def __call__(self, x2):   # [rows, E]
+            xs = x2.snap()
+            return mk(tuple(x2.shape), "f", lambda I: g.at(I[1]) * xs(I) + h.at(I[1]))
+
+    class _IN:
+        _isinstance_of = ("InstanceNorm1d",)
+
+        def __call__(self, x3):   # [B, E, N]: an opaque per-(instance, feature) map; here an affine one whose coefficients depend on them
+            xs = x3.snap()
+            cf = u.tensor("in.coef", (x3.shape[0], x3.shape[1]), "f")
+            return mk(tuple(x3.shape), "f", lambda I: cf.at(I[0], I[1]) * xs(I) + h.at(I[1]))
+
+    x = u.tensor("xb", (B, N, E), "f")
+    b, n, e = u.idx((B,), "b"), u.idx((N,), "n"), u.idx((E,), "e")
+    y = u.run(NNOPS, "Normalization.forward", x, selfobj=u.obj(NNOPS, "Normalization", normalizer=_BN()), record=False)
+    same_tensor(u, "norm.batch.shape", y, (B, N, E), lambda *I: y.at(*I))
+    u.prove("norm.batch.every-element-through-the-module-in-place", y.at(b, n, e) == g.at(e) * x.at(b, n, e) + h.at(e))
+    y2 = u.run(NNOPS, "Normalization.forward", x, selfobj=u.obj(NNOPS, "Normalization", normalizer=_IN()), record=False)
+    cf = u.ctx.inputs["in.coef"][0]
+    same_tensor(u, "norm.instance.shape", y2, (B, N, E), lambda *I: y2.at(*I))
+    u.prove("norm.instance.own-instance-and-feature", y2.at(b, n, e) == cf(zint(b), zint(e)) * x.at(b, n, e) + h.at(e))
+    u.canary("norm.instance.feature-node-swapped", y2.at(b, n, e) == cf(zint(b), zint(n)) * x.at(b, n, e) + h.at(e))
+
+
+ATT = "rl4co/models/nn/attention.py"
+
+
+@unit("nn.pointer_attention.glue", file=ATT, func="PointerAttention.forward", props=("C14", "C12"))
+def _(u):
+    # multi-start layout [B, S, E] queries against [B, N, E] keys: head split / merge, mask alignment and the final pointer
+    # product. The inner scaled-dot-product attention is a stub recording its inputs (assumed contract of torch SDPA).
+    B = u.dim("B")
+    N = u.dim("N", 2)
+    S = u.dim("S", 2)
+    H, G = 2, u.dim("G", 1)       # two heads of width G (the head count is a Python constant of the model)
+    E = H * G
+    q = u.tensor("query", (B, S, E), "f")
+    k = u.tensor("key", (B, N, E), "f")
+    v = u.tensor("value", (B, N, E), "f")
+    lk = u.tensor("logit_key", (B, N, E), "f")
+    mask = u.tensor("attn_mask", (B, S, N), "b")
+    rec = {}
+
+    def sdpa(qh, kh, vh, attn_mask=None, **kw):
+        rec.update(q=qh, k=kh, v=vh, mask=attn_mask)
+        return u.tensor("sdpa_heads", tuple(qh.shape), "f")
+
+    proj = linear(u, "project_out", E, E)
+    att = u.obj(ATT, "PointerAttention", num_heads=H, mask_inner=True, project_out=proj, check_nan=False, sdpa_fn=sdpa)
+    u.inline((ATT, "PointerAttention._inner_mha"), (ATT, "PointerAttention._make_heads"), (ATT, "PointerAttention._project_out"))
+    logits = u.run(ATT, "PointerAttention.forward", q, k, v, lk, mask, selfobj=att, record=False)
+    b, s, n = u.idx((B,), "b"), u.idx((S,), "s"), u.idx((N,), "n")
+    h, g = u.idx((H,), "h"), u.idx((G,), "g")
+    u.prove("ptr.heads.query", AND(rec["q"].rank == 4, rec["q"].at(b, h, s, g) == q.at(b, s, h * G + g)))
+    u.canary("ptr.heads.interleaved", rec["q"].at(b, h, s, g) == q.at(b, s, g * H + h))
+    u.prove("ptr.heads.key-value", AND(rec["k"].at(b, h, n, g) == k.at(b, n, h * G + g), rec["v"].at(b, h, n, g) == v.at(b, n, h * G + g)))
+    u.prove("ptr.mask.own-row-all-heads", AND(rec["mask"].rank == 4, rec["mask"].at(b, 0, s, n) == mask.at(b, s, n)))
+    same_tensor(u, "ptr.logits.shape", logits, (B, S, N), lambda *I: logits.at(*I))
+    # logits[b, s, n] = <glimpse[b, s, :], logit_key[b, n, :]> / sqrt(E) with glimpse = project_out(merge of the heads of (b, s)):
+    # characterised through the body's own reductions (each the sum of its summand over its range)
+    sums = [r for r in u.ctx.reds.values() if r.kind == "sum"]
+    if u.mode == "sym" and len(sums) == 2:
+        r_proj, r_bmm = sums
+        heads = u.ctx.inputs["sdpa_heads"][0]
+        W = u.ctx.inputs["project_out.weight"][0]
+        e, d = u.idx((E,), "e"), z3.Int("ptr.d")
+        merged = lambda bb, ss, dd: heads(zint(bb), zint(dd) / zint(G), zint(ss), zint(dd) % zint(G))
+        u.prove("ptr.glimpse.is-projection-of-own-merged-heads", AND(zint(r_proj.ns[0]) == zint(E),
+                IMPL(AND(d >= 0, d < E), r_proj.body((b, s, e), (d,)) == W(zint(e), d) * merged(b, s, d))))
+        u.prove("ptr.logits.inner-product-with-own-instance-keys", AND(zint(r_bmm.ns[0]) == zint(E),
+                IMPL(AND(d >= 0, d < E), r_bmm.body((b, s, n), (d,)) == r_proj.app((b, s, d)) * lk.at(b, n, d))))
+        u.prove("ptr.logits.scaled", logits.at(b, s, n) == r_bmm.app((b, s, n)) / ops.UF["sqrt"](z3.ToReal(zint(E))))
+
+
+@unit("nn.multi_head_attention.glue", file=ATT, func="MultiHeadAttention.forward", props=("C14",))
+def _(u):
+    # encoder self-attention: the fused QKV projection is split (three, head, width) per instance, the inner attention (stub:
+    # assumed contract of torch SDPA) sees instance b's own rows and mask, its heads are merged back in place and projected
+    B = u.dim("B")
+    N = u.dim("N", 2)
+    H, G = 2, u.dim("G", 1)
+    E = H * G
+    x = u.tensor("x", (B, N, E), "f")
+    mask = u.tensor("attn_mask", (B, N), "b")
+    rec = {}
+
+    def sdpa(qh, kh, vh, attn_mask=None, dropout_p=0.0, **kw):
+        rec.update(q=qh, k=kh, v=vh, mask=attn_mask)
+        return u.tensor("sdpa_out", tuple(qh.shape), "f")
+
+    wqkv, wout = linear(u, "Wqkv", E, 3 * E), linear(u, "out_proj", E, E)
+    mha = u.obj(ATT, "MultiHeadAttention", num_heads=H, Wqkv=wqkv, out_proj=wout, sdpa_fn=sdpa, attention_dropout=0.0)
+    y = u.run(ATT, "MultiHeadAttention.forward", x, mask, selfobj=mha, record=False)
+    b, n = u.idx((B,), "b"), u.idx((N,), "n")
+    h, g = u.idx((H,), "h"), u.idx((G,), "g")
+    W = u.ctx.inputs["Wqkv.weight"][0]
+    sums = [r for r in u.ctx.reds.values() if r.kind == "sum"]
+    same_tensor(u, "mha.out.shape", y, (B, N, E), lambda *I: y.at(*I))
+    u.canary("mha.out.is-the-input", y.at(b, n, 0) == x.at(b, n, 0))
+    u.prove("mha.mask.own-instance-all-heads-all-queries", AND(rec["mask"].rank == 4, rec["mask"].at(b, 0, 0, n) == mask.at(b, n)))
+    if u.mode == "sym" and len(sums) == 2:
+        r_qkv, r_out = sums
+        d = z3.Int("mha.d")
+        # the fused projection of row (b, n), column c, is sum_d W[c, d] x[b, n, d]; q / k / v of head h, width g read columns
+        # (0 | 1 | 2) * E + h * G + g of the SAME row
+        u.prove("mha.qkv.projection-of-own-row", AND(zint(r_qkv.ns[0]) == zint(E), IMPL(AND(d >= 0, d < E),
+                r_qkv.body((b, n, h * G + g), (d,)) == W(zint(h * G + g), d) * x.at(b, n, d))))
+        for name, off in (("q", 0), ("k", 1), ("v", 2)):
+            u.prove(f"mha.{name}.split", rec[name].at(b, h, n, g) == r_qkv.app((b, n, off * E + h * G + g)))
+        out = u.ctx.inputs["sdpa_out"][0]
+        Wo = u.ctx.inputs["out_proj.weight"][0]
+        e = u.idx((E,), "e")
+        u.prove("mha.out.projection-of-own-merged-heads", AND(zint(r_out.ns[0]) == zint(E), IMPL(AND(d >= 0, d < E),
+                r_out.body((b, n, e), (d,)) == Wo(zint(e), d) * out(zint(b), d / zint(G), zint(n), d % zint(G)))))
+        u.prove("mha.out.value", y.at(b, n, e) == r_out.app((b, n, e)))
